@@ -291,6 +291,29 @@ func runC04(c *core.Ctx) {
 	// lines whose length sits on the boundaries of read buffers (4096) and of the scanner (64 KiB),
 	// as last line of the file with and without a final line terminator, as entry and as heading
 	c.RunPart("l3-line-lengths", 10*time.Minute, func(c *core.Ctx) {
+		// names written in quotes are taken verbatim between the outer quotes: a backslash is a character, not an escape
+		{
+			type ne struct{ line, name string }
+			quoted := []ne{{`"a\"b"`, `a\"b`}, {`"c\\d"`, `c\\d`}, {`"e\n"`, `e\n`}, {`"back\\"`, `back\\`}, {`"x \"y\" z"`, `x \"y\" z`}, {`"\\"`, `\\`}, {`"tab\t"`, `tab\t`}, {`'single'`, `'single'`}}
+			for k, h := range quoted {
+				for j, e := range quoted {
+					text := h.line + ":\n  " + e.line + ": 1\n  - " + quoted[(j+1)%len(quoted)].line + ": 2\n"
+					evs, ret, pnc := parseAll(text)
+					c.Eval(1)
+					c.Count("quoted_name_cases", 1)
+					c.Nontrivial("quoted", text)
+					bad := ""
+					if pnc != "" || ret != nil || len(evs) != 1 || evs[0].Node == nil {
+						bad = fmt.Sprintf("returned %v, panic %q, %d events", ret, clip(pnc, 100), len(evs))
+					} else if n := evs[0].Node; n.Header != h.name || len(n.Elements) != 2 || n.Elements[0].Name != e.name || n.Elements[1].Name != quoted[(j+1)%len(quoted)].name {
+						bad = fmt.Sprintf("heading %q entries %v, want heading %q entries %q, %q", n.Header, n.Elements, h.name, e.name, quoted[(j+1)%len(quoted)].name)
+					}
+					if bad != "" {
+						c.Violation("ParseStreamCallback|quoted-name", fmt.Sprintf("case %d/%d: %s", k, j, bad), map[string]any{"file": text})
+					}
+				}
+			}
+		}
 		for _, L := range []int{4095, 4096, 4097, 8191, 8192, 8193, 12288, 16384, 60000} {
 			for _, kind := range []string{"entry", "heading"} {
 				for _, eol := range []string{"", "\n", "\r\n"} {
